@@ -21,10 +21,16 @@ import (
 
 func init() { streams["conc"] = streamConc }
 
-type nullListener struct{ events, errors int64 }
+type nullListener struct {
+	events, errors int64
+	delay          time.Duration // a slow application callback: events are in flight when the listener is shut down
+}
 
-func (l *nullListener) OnConnected()          {}
-func (l *nullListener) OnEvent(*types.Status) { atomic.AddInt64(&l.events, 1) }
+func (l *nullListener) OnConnected() {}
+func (l *nullListener) OnEvent(*types.Status) {
+	time.Sleep(l.delay)
+	atomic.AddInt64(&l.events, 1)
+}
 func (l *nullListener) OnError(error) bool    { atomic.AddInt64(&l.errors, 1); return true }
 
 func raceReports() int {
@@ -106,7 +112,7 @@ func streamConc(c *ctx) {
 					for k := 0; k < K; k++ {
 						ct := ctls[rr.Intn(len(ctls))]
 						card := uint32(g*1000 + k + 1)
-						res, err := u.GetCardByID(ct.serial, card)
+						res, err := getCard(u, ct.serial, card)
 						switch {
 						case err != nil:
 							atomic.AddInt64(&errs, 1)
@@ -138,7 +144,7 @@ func streamConc(c *ctx) {
 				go func() {
 					defer wg.Done()
 					for cycle := 0; cycle < 2; cycle++ {
-						l := &nullListener{}
+						l := &nullListener{delay: time.Duration(cycle) * 15 * time.Millisecond}
 						q := make(chan os.Signal, 1)
 						done := make(chan error, 1)
 						go func() { done <- u.Listen(l, q) }()
